@@ -246,8 +246,14 @@ func runWrite(c WriteCase) vkit.Result {
 			pending := conn.Len()
 			time.Sleep(time.Duration(-op.W) * time.Millisecond)
 			if pending > 0 {
+				// the periodic flush (1 s) empties the queue without any further write; on a saturated machine the timer
+				// goroutine may be late, so the wait is generous - only bytes that are never flushed are a failure
+				deadline := time.Now().Add(vkit.WaitCeiling)
+				for conn.Len() != 0 && time.Now().Before(deadline) {
+					time.Sleep(20 * time.Millisecond)
+				}
 				if conn.Len() != 0 {
-					return vkit.Failf("step %d: %d queued bytes were not flushed by the timer within %d ms", i, pending, -op.W)
+					return vkit.Failf("step %d: %d queued bytes were not flushed by the timer (waited %v without another write)", i, pending, vkit.WaitCeiling)
 				}
 				timer++
 			}
